@@ -18,7 +18,7 @@ LEVEL_TEXT = ("Static structural proof of necessary conditions: (R9.1) every fun
               "registered as DEFINITION_INVALID and reachable from the dictionary, HED_DEF_EXPAND_INVALID as "
               "DEF_EXPAND_INVALID from string validation. The content of an expansion, the shrink/expand round trip "
               "beyond R9.1 and interleavings with copy/validate are NOT decided.")
-LEVEL_EXTRA = 'Added after the seeded evaluation: (R9.5) HedTag.__deepcopy__ copies the cached expansion, its flag and the parent link; (R9.6) validators obtain expansions with a copy of the tag; (R9.7) every access to a definition table case-folds with casefold (one frozen exception: keys copied from another table); (R9.8) the nested-Def search in definition contents is recursive. (R9.9) the Def-expand content test compares sorted forms of both groups. (R9.10) the column-wise expand/shrink variants store through a single indexer (no chained assignment). (R9.11) written-form tag equality is only a fallback for tags the schema did not identify. (R9.12) no issue list is discarded in the definition modules; (R9.13) package-internal modules are imported by their package path; (R9.14) HedGroup locates children by identity.'
+LEVEL_EXTRA = 'Added after the seeded evaluation: (R9.5) HedTag.__deepcopy__ copies the cached expansion, its flag and the parent link; (R9.6) validators obtain expansions with a copy of the tag; (R9.7) every access to a definition table case-folds with casefold (one frozen exception: keys copied from another table); (R9.8) the nested-Def search in definition contents is recursive. (R9.9) the Def-expand content test compares sorted forms of both groups. (R9.10) the column-wise expand/shrink variants store through a single indexer (no chained assignment). (R9.11) written-form tag equality is only a fallback for tags the schema did not identify. (R9.12) no issue list is discarded in the definition modules; (R9.13) package-internal modules are imported by their package path; (R9.14) HedGroup locates children by identity. (R9.15) no dictionary key or set member is a tag/group object drawn from an annotation.'
 
 ROWS = [{"key": "DefinitionErrors." + k, "code": "DEFINITION_INVALID"} for k in (
     "WRONG_NUMBER_GROUPS", "WRONG_NUMBER_TAGS", "NO_DEFINITION_CONTENTS", "INVALID_DEFINITION_EXTENSION",
@@ -432,3 +432,62 @@ def run(ctx):
                 n_surg += 1
     ctx.ok("R9.14", "children are located by identity in HedGroup (%d identity tests / child lookups)" % n_surg, "")
     ctx.floor("R9.14", "identity tests and child lookups in HedGroup", n_surg, 3)
+
+    # ---------------- R9.15: tag/group objects are never dictionary keys or set members (they hash by value, case-folded)
+    ctx.rule("R9.15", "no dict key / set element is a tag or group object drawn from an annotation (identity is kept with id() or lists)")
+    ACC15 = ("children", "get_all_tags", ".tags()", "get_all_groups", ".groups()", "find_def_tags", "find_tags", "find_top_level_tags",
+             "find_exact_tags", "find_wildcard_tags", "find_tags_with_term")
+    n15 = 0
+    for f in prog.functions.values():
+        if not f.module.name.startswith(("hed.models", "hed.validator")):
+            continue
+        pm15 = {id(ch): p_ for p_ in ast.walk(f.node) for ch in ast.iter_child_nodes(p_)}
+
+        assigned15 = {}
+        for a_ in ast.walk(f.node):
+            if isinstance(a_, ast.Assign) and len(a_.targets) == 1 and isinstance(a_.targets[0], ast.Name):
+                assigned15.setdefault(a_.targets[0].id, []).append(norm(a_.value))
+
+        def objects_iter(target, it, name):
+            if isinstance(it, ast.Call) and call_name(it) == "enumerate" and isinstance(target, ast.Tuple) and target.elts \
+                    and isinstance(target.elts[0], ast.Name) and target.elts[0].id == name:
+                return False          # the index of enumerate
+            txts = [norm(it)]
+            for nm in [x.id for x in ast.walk(it) if isinstance(x, ast.Name)]:
+                txts += assigned15.get(nm, [])
+            return any(k in t for t in txts for k in ACC15)
+
+        def bound_over_objects(name_node):
+            cur = name_node
+            while id(cur) in pm15:
+                par = pm15[id(cur)]
+                gens = par.generators if isinstance(par, (ast.ListComp, ast.SetComp, ast.GeneratorExp, ast.DictComp)) else []
+                for g in gens:
+                    if any(isinstance(t, ast.Name) and t.id == name_node.id for t in ast.walk(g.target)):
+                        return objects_iter(g.target, g.iter, name_node.id)
+                if isinstance(par, ast.For) and any(isinstance(t, ast.Name) and t.id == name_node.id for t in ast.walk(par.target)) \
+                        and any(cur is b or any(cur is y for y in ast.walk(b)) for b in par.body):
+                    return objects_iter(par.target, par.iter, name_node.id)
+                cur = par
+            return False
+        for x in ast.walk(f.node):
+            keys = []
+            if isinstance(x, ast.DictComp):
+                keys = [x.key]
+            elif isinstance(x, ast.SetComp):
+                keys = [x.elt]
+            elif isinstance(x, ast.Assign):
+                keys = [t.slice for t in x.targets if isinstance(t, ast.Subscript)]
+            elif isinstance(x, ast.Call) and isinstance(x.func, ast.Attribute) and x.func.attr in ("add", "setdefault") and x.args:
+                keys = [x.args[0]]
+            for k in keys:
+                if isinstance(k, ast.Name):
+                    n15 += 1
+                    if bound_over_objects(k):
+                        ctx.saw(f)
+                        ctx.violation("R9.15", f.qualname, x, loc(f, x),
+                                      "`%s` is a tag/group object used as a dictionary key or set member: tags hash and compare by "
+                                      "case-folded text, so two occurrences of the same Def collapse into one entry and only one of "
+                                      "them is expanded / validated" % k.id)
+    ctx.floor("R9.15", "name-keyed dictionary/set constructions in models and validators", n15, 10)
+    ctx.ok("R9.15", "%d name-keyed dict/set constructions, none keyed by an annotation object" % n15, "")
